@@ -1,5 +1,6 @@
 import Vita.C11.Lemmas
 import Vita.C11.BigLemmas
+import Vita.C11.CacheLemmas
 /-!
   C11 — save followed by load reproduces the object (property theorems).
 
@@ -145,6 +146,47 @@ theorem summary_save_load_save (io : FloatIO F) (law : FloatLaw io) (tab : SymTa
   simp only [List.append_nil] at this
   rw [this] at hl
   cases hl; rfl
+
+/-! ### the fitness cache, also after `clear()` / `clear(key)` -/
+
+/-- Loading what `cache::save` wrote into a fresh cache of the same size succeeds and yields the
+    cache `c'` that keeps exactly the live slots of `c` (all other slots value-initialised). -/
+theorem cache_load_save (io : FloatIO F) (law : FloatLaw io) (c : Cache F) (hk : c.ok io) (r : Str) :
+    ∃ rest, Cache.loadInto io (Cache.fresh c.bits) (c.save io ++ r)
+      = some (⟨c.bits, c.table.map (keepLive c.sl), c.sl⟩, rest) :=
+  Cache.load_save io law c hk r
+
+/-- identical cache lookups: every non-empty signature finds the same fitness (or nothing) in the
+    reloaded cache as in the original -/
+theorem cache_lookups_equal (io : FloatIO F) (law : FloatLaw io) (c c' : Cache F) (hk : c.ok io)
+    (rest : Str) (hl : Cache.loadInto io (Cache.fresh c.bits) (c.save io) = some (c', rest))
+    (h : Hash) (hne : h.isEmpty = false) : c'.find h = c.find h := by
+  obtain ⟨rest', he⟩ := Cache.load_save io law c hk []
+  simp only [List.append_nil] at he
+  rw [he] at hl
+  cases hl
+  exact find_reloaded c hk.2.1 h hne
+
+theorem cache_save_load_save (io : FloatIO F) (law : FloatLaw io) (c c' : Cache F) (hk : c.ok io)
+    (rest : Str) (hl : Cache.loadInto io (Cache.fresh c.bits) (c.save io) = some (c', rest)) :
+    c'.save io = c.save io := by
+  obtain ⟨rest', he⟩ := Cache.load_save io law c hk []
+  simp only [List.append_nil] at he
+  rw [he] at hl
+  cases hl
+  exact save_reloaded io c hk.2.1
+
+/-- the invariant is the one of every cache reached from `cache(bits)` by any history of
+    `insert` (non-empty keys, non-empty finite fitness), `clear()` (fewer than 2^32 of them, cf.
+    the seal-wrap finding of C04) and `clear(key)` -/
+theorem cache_reach_fresh (io : FloatIO F) (bits : Nat) (hb : 2 ^ bits ≤ U64) :
+    (Cache.fresh bits : Cache F).Reach io := Cache.reach_fresh io bits hb
+theorem cache_reach_insert (io : FloatIO F) (c : Cache F) (hc : c.Reach io) (h : Hash) (f : List F)
+    (hh : h.ok) (hf : Fitness.ok io f) : (c.insert h f).Reach io := Cache.reach_insert io c hc h f hh hf
+theorem cache_reach_clear (io : FloatIO F) (c : Cache F) (hc : c.Reach io) (hlt : c.sl + 1 ≤ U32) :
+    c.clear.Reach io := Cache.reach_clear io c hc hlt
+theorem cache_reach_clearKey (io : FloatIO F) (c : Cache F) (hc : c.Reach io) (h : Hash) :
+    (c.clearKey h).Reach io := Cache.reach_clearKey io c hc h
 
 /-! ### non-vacuity -/
 
